@@ -122,4 +122,13 @@ theorem aggregate_code (truth : Term → Bool) :
         Term.app "init" [Term.sym "id", Term.app "value-after-loop" [Term.sym "id", fill]]]
       Out.fall [fill, visit] := rfl
 
+/-- group_by records the keys AS GIVEN (order and repetitions included: the tuple is the sort priority of `aggregate`) on
+    the receiver and returns the receiver itself. -/
+theorem group_by_code (truth : Term → Bool) :
+    ListOfDicts_group_by truth =
+      Out.ret [Term.app "setattr" [Term.sym "self", Term.sym "_group_keys", Term.app "tuple" [Term.sym "keys"]]] (Term.sym "self") ∧
+    ListOfDicts_group_by_signature = ["self", "*keys"] ∧ ListOfDicts_aggregate_signature = ["self", "**key_function_pairs"] ∧
+    ListOfDicts_left_join_signature = ["self", "other", "*by"] ∧ ListOfDicts_full_join_signature = ["self", "other", "*by"] :=
+  ⟨rfl, rfl, rfl, rfl, rfl⟩
+
 end DI.Tie.C16
